@@ -45,12 +45,23 @@ VARIANTS = [
     ("v12", "", "    x = Bits(4)\n    y = Bits(12)\n    a = Int(1)\n"),
     ("v13", "", "    length = Int(1).describe(AutoLength('d'))\n    d = Data(length)\n"),
     ("v14", "", "    a = Int(3)\n    b = Int(3)\n"),
+    # user-written descriptors: identical field code, they differ only in the descriptor-sync lines of the generated code
+    ("v15", "", "    c = Int(1).describe(PlainDesc())\n    b = Int(2)\n"),
+    ("v16", "", "    c = Int(1).describe(PackDesc())\n    b = Int(2)\n"),
+    ("v17", "", "    c = Int(1).describe(BothDesc())\n    b = Int(2)\n"),
 ]
 VNAMES = [v[0] for v in VARIANTS]
 VBY = {v[0]: v for v in VARIANTS}
 
 DEFS_HEADER = ("from bisturi.packet import Packet\nfrom bisturi.field import Int, Data, Bits, Ref\n"
-               "from bisturi.descriptor import AutoLength\nCLASSES = []\n")
+               "from bisturi.descriptor import AutoLength\nCLASSES = []\n"
+               "class PlainDesc:\n"
+               "    def __get__(self, inst, owner):\n        return self if inst is None else getattr(inst, self.real_field_name)\n"
+               "    def __set__(self, inst, val):\n        setattr(inst, self.real_field_name, val)\n"
+               "class PackDesc(PlainDesc):\n"
+               "    def sync_before_pack(self, inst):\n        setattr(inst, self.real_field_name, (getattr(inst, self.real_field_name) | 0x80) & 0xff)\n"
+               "class BothDesc(PackDesc):\n"
+               "    def sync_after_unpack(self, inst):\n        setattr(inst, self.real_field_name, getattr(inst, self.real_field_name) ^ 1)\n")
 
 
 def class_text(clsname, vname):
@@ -420,8 +431,9 @@ class CacheEngineBase(Engine):
         key = (modname, text)
         if key in self.twins:
             return self.twins[key]
-        head, *blocks = text.split("\nclass ")
-        res = [self._twin_one(head + "\nclass " + b) for b in blocks]
+        import re
+        head, *blocks = re.split(r"\n(?=class \w+\(Packet\):)", text)
+        res = [self._twin_one(head + "\n" + b) for b in blocks]
         self.twins[key] = res
         return res
 
@@ -529,7 +541,7 @@ def _draw_spec(ch, label="defs"):
     return spec
 
 
-SAME_SIZE = ["v1", "v2", "v3", "v4", "v5"]      # their generated modules have the same length: the most confusable
+SAME_SIZE = ["v1", "v2", "v3", "v4", "v5", "v15", "v16", "v17"]      # same or nearly the same generated text: the most confusable
 
 
 def _draw_variant(ch, label):
